@@ -45,8 +45,9 @@ Hypothesis Hcapeq : l_cap L = get_capacity (l_dend L) (l_off L) (l_skip L).
 Hypothesis Hs1 : in_skip (l_skip L) (l_off L + 1) = false.
 Hypothesis Hs23 : 255 <= l_cap L ->
   in_skip (l_skip L) (l_off L + 2) = false /\ in_skip (l_skip L) (l_off L + 3) = false.
-(* a memory that agrees with em up to and including the tag byte of the NDEF TLV is parsed to the same layout *)
-Hypothesis Htransfer : forall c l' v' e', agree_below (l_off L + 1) em c ->
+(* a memory that agrees with em up to and including the tag byte of the NDEF TLV, and whose NDEF TLV lies inside the
+   data area, is parsed to the same layout *)
+Hypothesis Htransfer : forall c l' v' e', agree_below (l_off L + 1) em c -> ndef_fits c (set_val L v') = true ->
   read_tlv c (l_off L) (l_skip L) = Ok (3, l', v', e') -> READ c = Ok (Some (set_val L v')).
 (* every lemma of the section takes all hypotheses, in this order *)
 Set Default Proof Using "Hu Hk Hde Hoff0 Hoff1 Htag Hcapeq Hs1 Hs23 Htransfer".
@@ -138,13 +139,26 @@ Proof.
     intros x Hx. apply Hfr; [lia | left; lia].
 Qed.
 
+(* the test at the end of the repaired readers *)
+Lemma fits_intro (c v : list Z) b hdr : rd c (off + 1) = Ok b -> hdr = (if b =? 255 then 4 else 2) -> off + hdr <= dend ->
+  len v <= count_free skip (off + hdr) (Z.to_nat (dend - (off + hdr))) -> len v <= l_cap L ->
+  ndef_fits c (set_val L v) = true.
+Proof.
+  intros Hb Hh H1 H2 H3. unfold ndef_fits, ndef_hdr. cbn [set_val l_off l_dend l_val l_skip l_cap]. rewrite Hb.
+  assert (E : match b with 255 => 4 | _ => 2 end = hdr).
+  { subst hdr. destruct (Z.eqb_spec b 255) as [->|Hn]; [reflexivity|].
+    destruct b as [|p|p]; try reflexivity. repeat (destruct p as [p|p|]; try reflexivity); congruence. }
+  rewrite E. lia.
+Qed.
+
 (* what a reader finds when the NDEF TLV is still in front of it and its length byte is 0 *)
 Definition hdr0 (c : list Z) : Prop := agree_below (off + 1) em c /\ get c (off + 1) = 0.
-Lemma hdr0_read c : hdr0 c -> READ c = Ok (Some (set_val L [])).
+Lemma hdr0_read c : 0 <= l_cap L -> hdr0 c -> READ c = Ok (Some (set_val L [])).
 Proof.
-  intros [HA H0].
+  intros Hc0 [HA H0]. pose proof HA as [HL HG]. assert (Hlen : len c = len em) by (unfold len; congruence).
   apply (Htransfer c 0 [] (off + 2) HA).
-  destruct HA as [HL HG]. assert (Hlen : len c = len em) by (unfold len; congruence).
+  { apply (fits_intro c [] 0 2); [rewrite rd_ok by lia; rewrite H0; reflexivity | reflexivity | lia | | exact Hc0].
+    rewrite len_nil. apply count_free_bounds. }
   unfold read_tlv. rewrite rd_ok by lia. rewrite <- HG by lia. rewrite Htag. cbn [bind Z.eqb orb].
   rewrite rd_ok by lia. rewrite H0. cbn [bind Z.eqb fst snd Z.to_nat]. rewrite read_val_0. reflexivity.
 Qed.
@@ -173,25 +187,26 @@ Proof.
   split; [|exact T3]. destruct T1 as [Tl _]. split; [congruence|]. intros a Ha. symmetry. apply T2; lia.
 Qed.
 
-Lemma final_read_short (d c3 : list Z) e : agree_below (off + 1) em c3 -> len d < 255 -> get c3 (off + 1) = len d ->
+Lemma final_read_short (d c3 : list Z) e : agree_below (off + 1) em c3 -> len d <= l_cap L -> len d < 255 -> get c3 (off + 1) = len d ->
   read_val skip (off + 2) (skipn (Z.to_nat (off + 2)) c3) (length d) = Ok (d, e) ->
   READ c3 = Ok (Some (set_val L d)).
 Proof.
-  intros HA Hd H1 Hrv.
+  intros HA Hcap Hd H1 Hrv. pose proof HA as [HL HG]. assert (Hlen : len c3 = len em) by (unfold len; congruence).
   apply (Htransfer c3 (len d) d e HA).
-  destruct HA as [HL HG]. assert (Hlen : len c3 = len em) by (unfold len; congruence).
+  { apply (fits_intro c3 d (len d) 2); [rewrite rd_ok by lia; rewrite H1; reflexivity | replace (len d =? 255) with false by lia; reflexivity
+      | lia | apply cap_short; assumption | exact Hcap]. }
   unfold read_tlv. rewrite rd_ok by lia. rewrite <- HG by lia. rewrite Htag. cbn [bind Z.eqb orb].
   rewrite rd_ok by lia. rewrite H1. cbn [bind]. replace (len d =? 255) with false by lia. cbn [bind fst snd].
   unfold len at 1. rewrite Nat2Z.id, Hrv. reflexivity.
 Qed.
-Lemma final_read_long (d c3 : list Z) e : agree_below (off + 1) em c3 -> off + 3 < dend ->
+Lemma final_read_long (d c3 : list Z) e : agree_below (off + 1) em c3 -> len d <= l_cap L -> 255 <= len d -> off + 3 < dend ->
   get c3 (off + 1) = 255 -> get c3 (off + 2) = len d / 256 -> get c3 (off + 3) = len d mod 256 ->
   read_val skip (off + 4) (skipn (Z.to_nat (off + 4)) c3) (length d) = Ok (d, e) ->
   READ c3 = Ok (Some (set_val L d)).
 Proof.
-  intros HA Hd3 H1 H2 H3 Hrv.
+  intros HA Hcap Hd Hd3 H1 H2 H3 Hrv. pose proof HA as [HL HG]. assert (Hlen : len c3 = len em) by (unfold len; congruence).
   apply (Htransfer c3 (len d) d e HA).
-  destruct HA as [HL HG]. assert (Hlen : len c3 = len em) by (unfold len; congruence).
+  { apply (fits_intro c3 d 255 4); [rewrite rd_ok by lia; rewrite H1; reflexivity | reflexivity | lia | apply cap_long; assumption | exact Hcap]. }
   unfold read_tlv. rewrite rd_ok by lia. rewrite <- HG by lia. rewrite Htag. cbn [bind Z.eqb orb].
   rewrite rd_ok by lia. rewrite H1. cbn [bind Z.eqb Pos.eqb]. rewrite !rd_ok by lia. rewrite H2, H3. cbn [bind fst snd].
   replace (256 * (len d / 256) + len d mod 256) with (len d) by lia.
@@ -247,17 +262,17 @@ Proof.
 Qed.
 
 (* ---- the length phase, one length byte ---- *)
-Lemma tail_short (d c2 : list Z) e : hdr0 c2 -> length c2 = length em -> len d < 255 ->
+Lemma tail_short (d c2 : list Z) e : hdr0 c2 -> length c2 = length em -> len d <= l_cap L -> len d < 255 ->
   read_val skip (off + 2) (skipn (Z.to_nat (off + 2)) c2) (length d) = Ok (d, e) ->
   exists c3, ph_len_short L d c2 = Ok c3 /\ touch c2 c3 /\ length c3 = length em /\ READ c3 = Ok (Some (set_val L d)) /\
     (forall x, umixed u c2 c3 x -> x = c2 \/ x = c3).
 Proof.
-  intros Z2 L2 Hd R2. unfold ph_len_short.
+  intros Z2 L2 Hcap Hd R2. unfold ph_len_short.
   destruct (upd_ok c2 (off + 1) (len d)) as [c3 P3]; [unfold len in *; lia|].
   destruct (upd_touch _ _ _ _ P3) as (T3 & G3 & V3); [lia | apply area_intro; [lia | exact Hs1] |].
   assert (L3 : length c3 = length em) by (destruct T3; congruence).
   exists c3. split; [exact P3|]. split; [exact T3|]. split; [exact L3|]. split.
-  - apply (final_read_short d c3 e); [| exact Hd | exact V3 |].
+  - apply (final_read_short d c3 e); [| exact Hcap | exact Hd | exact V3 |].
     + destruct Z2 as [[Za Zb] _]. split; [congruence|]. intros a Ha. rewrite Zb by exact Ha. symmetry. apply G3; lia.
     + apply (read_val_at_congr skip c2 c3 (off + 2) _ d e); [lia | congruence | exact R2 |].
       intros x Hx. symmetry. apply G3; lia.
@@ -293,7 +308,7 @@ Proof.
     elim Hne. rewrite Gb, Ga by assumption. reflexivity. }
   exists cb, c3. split; [exact Plow|]. split; [exact P3|]. split; [exact Tlow|]. split; [exact T3|]. split; [exact Zb|].
   split; [exact Lb|]. split; [exact L3|]. split.
-  { apply (final_read_long d c3 e); [| exact Hd3 | exact V3 | | |].
+  { apply (final_read_long d c3 e); [| exact Hcap | exact Hd | exact Hd3 | exact V3 | | |].
     - destruct Zb as [[Za Zg] _]. split; [congruence|]. intros a Ha. rewrite Zg by exact Ha. symmetry. apply G3; lia.
     - rewrite G3, Gb by lia. exact Va.
     - rewrite G3 by lia. exact Vb.
@@ -347,7 +362,7 @@ Lemma caches_short (d : list Z) : len d <= l_cap L -> len d < 255 ->
 Proof.
   intros Hcap Hd. destruct (write_prefix d Hcap) as (c1 & c2 & e & P1 & P2 & T1 & T2 & Z1 & Z2 & L1 & L2 & G1 & G2 & R2).
   replace (len d <? 255) with true in G2, R2 by lia.
-  destruct (tail_short d c2 e Z2 L2 Hd R2) as (c3 & P3 & T3 & L3 & Rf & M3).
+  destruct (tail_short d c2 e Z2 L2 Hcap Hd R2) as (c3 & P3 & T3 & L3 & Rf & M3).
   exists [c1; c2; c3], c3. split; [repeat (eapply steps_cons; [eassumption|]); apply steps_nil|]. split; [reflexivity|].
   split; [repeat constructor; assumption|].
   split. { intros f c Ha. destruct (adjacent3 _ _ _ _ _ _ Ha) as [[-> ->]|[[-> ->]|[-> ->]]]; assumption. }
